@@ -403,6 +403,19 @@ class Interp:
                 v = {"vpaddd": x + y, "vpsubd": x - y, "vpxord": x ^ y, "vpandd": x & y, "vpord": x | y}[name] & 0xFFFFFFFF
                 r |= v << i
             self.put(ops[0], r)
+        elif name in ("vpand", "vpandn", "vpor", "vpxor"):
+            w = self.width(ops[0])
+            a, b = self.val(ops[1], w), self.val(ops[2], w)
+            m = (1 << w) - 1
+            self.put(ops[0], {"vpand": a & b, "vpandn": (~a & m) & b, "vpor": a | b, "vpxor": a ^ b}[name])
+        elif name in ("vextractf128", "vextracti128"):
+            self.put(ops[0], (self.val(ops[1], 256) >> (128 * (ops[2].v & 1))) & ((1 << 128) - 1))
+        elif name in ("vinsertf128", "vinserti128"):
+            a, b, k = self.val(ops[1], 256), self.val(ops[2], 128), ops[3].v & 1
+            self.put(ops[0], (a & ~(((1 << 128) - 1) << (128 * k))) | (b << (128 * k)))
+        elif name in ("vbroadcastf128", "vbroadcasti128"):
+            v = self.val(ops[1], 128)
+            self.put(ops[0], v | (v << 128))
         elif name == "kmovw":
             self.put(ops[0], self.val(ops[1], 16) & 0xFFFF)
         elif name in ("korw", "kandw", "kxorw"):
